@@ -29,6 +29,11 @@ def _instr_kind(i) -> str:
 def _triples(rec) -> List[Tuple[str, str, str]]:
     """distinct (previous activity, operation, resulting activity) triples of one record"""
     out = []
+    if rec.get("op") == "transition" and "pre" in rec:
+        pre = {v["id"]: v for v in rec["pre"]["vehicles"]}
+        if rec["veh"] in pre:
+            out.append((_act_kind(pre[rec["veh"]]["act"]), "transition:" + _act_kind(rec["next"]), rec["outcome"]))
+        return out
     if rec.get("post") is None or "pre" not in rec:
         return out
     pre = {v["id"]: v for v in rec["pre"]["vehicles"]}
@@ -95,7 +100,7 @@ def _hist_worker(args) -> Dict[str, Any]:
         f.pop("record", None)
     return {
         "records": sum(1 for r in recs if r["op"] != "cfg"),
-        "findings": findings[:40],
+        "findings": fw.pick(findings, 40),
         "n_findings": len(findings),
         "triples": sorted(triples),
         "skipped": skipped,
@@ -128,7 +133,7 @@ def hist_layer(seed: int, n_hist: int, steps: int, opts: Dict[str, Any] | None =
             "records": sum(p["records"] for p in parts),
             "skipped_near_boundary": sum(p["skipped"] for p in parts),
             "n_findings": sum(p["n_findings"] for p in parts),
-            "findings": findings[:60],
+            "findings": fw.pick(findings, 60),
             "triples": sorted(triples),
             "sample": next((p["sample"] for p in parts if p["sample"]), None),
             "wall_s": round(time.time() - t0, 2),
@@ -153,7 +158,7 @@ def trav_layer(seed: int, n_cases: int) -> Dict[str, Any]:
         for p in parts:
             shapes.update(tuple(s) for s in p["shapes"])
             findings += p["findings"]
-        return {"cases": sum(p["n"] for p in parts), "findings": findings[:40], "n_findings": sum(p["n_findings"] for p in parts),
+        return {"cases": sum(p["n"] for p in parts), "findings": fw.pick(findings, 40), "n_findings": sum(p["n_findings"] for p in parts),
                 "shapes": sorted(shapes), "skipped_near_boundary": sum(p["skipped"] for p in parts),
                 "sample": parts[0]["sample"], "wall_s": round(time.time() - t0, 2)}
 
@@ -175,7 +180,7 @@ def coll_layer(seed: int, n_cases: int) -> Dict[str, Any]:
         for p in parts:
             shapes.update(tuple(s) for s in p["shapes"])
             findings += p["findings"]
-        return {"cases": sum(p["n"] for p in parts), "ops": sum(p["ops"] for p in parts), "findings": findings[:40],
+        return {"cases": sum(p["n"] for p in parts), "ops": sum(p["ops"] for p in parts), "findings": fw.pick(findings, 40),
                 "n_findings": sum(p["n_findings"] for p in parts), "shapes": sorted(shapes), "sample": parts[0]["sample"],
                 "wall_s": round(time.time() - t0, 2)}
 
@@ -198,7 +203,7 @@ def stack_layer(seed: int, n_cases: int) -> Dict[str, Any]:
         for p in parts:
             shapes.update(tuple(s) for s in p["shapes"])
             findings += p["findings"]
-        return {"cases": n_cases, "steps": sum(p["n"] for p in parts), "findings": findings[:40],
+        return {"cases": n_cases, "steps": sum(p["n"] for p in parts), "findings": fw.pick(findings, 40),
                 "n_findings": sum(p["n_findings"] for p in parts), "shapes": sorted(shapes),
                 "sample": next((p["sample"] for p in parts if p["sample"]), None), "wall_s": round(time.time() - t0, 2)}
 
@@ -220,7 +225,7 @@ def mech_layer(seed: int, n_cases: int) -> Dict[str, Any]:
         for p in parts:
             shapes.update(tuple(s) for s in p["shapes"])
             findings += p["findings"]
-        return {"cases": sum(p["n"] for p in parts), "findings": findings[:40], "n_findings": sum(p["n_findings"] for p in parts),
+        return {"cases": sum(p["n"] for p in parts), "findings": fw.pick(findings, 40), "n_findings": sum(p["n_findings"] for p in parts),
                 "shapes": sorted(shapes, key=str), "sample": parts[0]["sample"], "wall_s": round(time.time() - t0, 2)}
 
     return fw.cached("mech", {"seed": seed, "n": n_cases}, compute)
@@ -242,7 +247,7 @@ def generic_layer(name: str, module: str, seed: int, n_cases: int, mult: int, ex
         for p in parts:
             shapes.update(tuple(s) if isinstance(s, list) else s for s in p["shapes"])
             findings += p["findings"]
-        out = {"cases": sum(p["n"] for p in parts), "findings": findings[:40], "n_findings": sum(p["n_findings"] for p in parts),
+        out = {"cases": sum(p["n"] for p in parts), "findings": fw.pick(findings, 40), "n_findings": sum(p["n_findings"] for p in parts),
                "shapes": sorted(shapes, key=str), "sample": parts[0]["sample"], "wall_s": round(time.time() - t0, 2)}
         for k in extra_sums:
             out[k] = sum(p.get(k, 0) for p in parts)
